@@ -276,7 +276,8 @@ static const int kNumRings = (int)(sizeof(kRings) / sizeof(kRings[0]));
 // One producer thread, one consumer thread and (in some rounds) one observer thread operate on the real
 // SPSCRingBuffer truly concurrently; there is no ctl::Controller, so the DISPENSO_VERIF_POINT hooks are
 // inert and the windows INSIDE a specification step (between two hook points) are exercised as well.
-// The threads are persistent; every round has a start barrier, a random start offset per thread, random
+// The threads are persistent (the producer is the main thread, a watchdog thread detects a hang); every
+// round has a start barrier (who leaves it first alternates), a random start offset per thread, random
 // short programs with random tiny delays between the operations and inside the payload's special member
 // functions.  The rings persist across rounds (a round starts on an empty ring at whatever index the
 // previous round stopped, so wrap-around happens at every program position); a round ends either with the
@@ -530,12 +531,13 @@ struct Round {
   int nP = 0, nC = 0, nO = 0;
   int stream = 0, K = 0; // stream round: until K values were accepted
   int destroy = 0;
+  int lead = 0; // who leaves the start barrier first
   uint64_t seedP = 0, seedC = 0, seedO = 0;
 };
 struct Shared {
   Round rd; // written by main before go is stored, read by the workers after they saw it
   std::atomic<long long> go{-1}, ogo{-1};
-  std::atomic<long long> pdone{-1}, cdone{-1}, odone{-1};
+  std::atomic<long long> cready{-1}, pstart{-1}, pdone{-1}, cdone{-1}, odone{-1};
   Rows p, c, o;
   std::vector<int> drain;
   int fin[3] = {0, 0, 0};
@@ -759,6 +761,12 @@ static void consumerThread() {
     if (!awaitRound(r))
       return;
     const Round& rd = sh.rd;
+    sh.cready.store(r, std::memory_order_release); // start barrier: the producer waits for this
+    if (rd.lead) { // ... and in every other round the consumer waits for the producer's answer, so that
+      unsigned n = 0; // the latency of the last hand-shake favours each side equally often
+      while (sh.pstart.load(std::memory_order_acquire) != r)
+        relax(n);
+    }
     beginPart(rd.seedC);
     kKinds[rd.kind].consumer(rd);
     endPart(1);
@@ -854,6 +862,7 @@ static int runStress(const drv::Args& a) {
     rd.destroy = ctl::splitmix(rng) % 5 == 0 ? 1 : 0;
     rd.stream = streamEvery > 0 && r % streamEvery == streamEvery - 1;
     rd.K = (int)(streamLen / 2 + (long long)(ctl::splitmix(rng) % (uint64_t)(streamLen + 1)));
+    rd.lead = (int)(ctl::splitmix(rng) % 2);
     rd.seedP = ctl::splitmix(rng);
     rd.seedC = ctl::splitmix(rng);
     rd.seedO = ctl::splitmix(rng);
@@ -866,11 +875,15 @@ static int runStress(const drv::Args& a) {
     if (rd.nO)
       sh.ogo.store(r, std::memory_order_release);
     sh.go.store(r, std::memory_order_release);
-    // this thread is the producer
+    // this thread is the producer; start barrier, then both sides add a random offset
+    unsigned n = 0;
+    while (sh.cready.load(std::memory_order_acquire) != r)
+      relax(n);
+    if (rd.lead)
+      sh.pstart.store(r, std::memory_order_release);
     beginPart(rd.seedP);
     k.producer(rd);
     sh.pdone.store(r, std::memory_order_release);
-    unsigned n = 0;
     while (sh.cdone.load(std::memory_order_acquire) != r)
       relax(n);
     while (rd.nO && sh.odone.load(std::memory_order_acquire) != r)
